@@ -229,7 +229,9 @@ var iptIfaces = []string{"eth0", "eth1"}
 var iptUserChains = []string{"c1", "c2", "c3", "eth0_in", "droplog"}
 
 // pct is true with probability n/100; the draw shrinks towards false.
-func pct(rt *rapid.T, n int, label string) bool { return rapid.IntRange(0, 99).Draw(rt, label) >= 100-n }
+func pct(rt *rapid.T, n int, label string) bool {
+	return rapid.IntRange(0, 99).Draw(rt, label) >= 100-n
+}
 
 func genAddr(rt *rapid.T, label string) *AddrM {
 	return &AddrM{P: netip.MustParsePrefix(rapid.SampledFrom(iptAddrs).Draw(rt, label)), Neg: pct(rt, 10, label+"Neg")}
@@ -248,7 +250,8 @@ func genPort(rt *rapid.T, risky bool, label string) *PortM {
 // later = user chains this chain may jump to (keeps the chain graph acyclic).
 // risky admits the vocabulary of the analysed known findings (protocols the
 // device prints by name, positive --syn, marks >= 2^31, negated port ranges
-// starting at 0), so that most cases stay clear of them.
+// starting at 0, negated vrrp/ipv6-icmp), so that most cases stay clear of
+// them.
 func genRule(rt *rapid.T, risky bool, table, chain string, builtin bool, later []string) *Rule {
 	r := &Rule{LogLevel: -1}
 	if pct(rt, 50, "hasSrc") {
@@ -303,7 +306,8 @@ func genRule(rt *rapid.T, risky bool, table, chain string, builtin bool, later [
 			}
 		}
 		if r.SPort == nil && r.DPort == nil && r.Syn == 0 && r.ICMP == nil && pct(rt, 8, "protoNeg") {
-			r.Proto.Neg = true
+			// negated vrrp / ipv6-icmp belongs to the risky vocabulary
+			r.Proto.Neg = risky || (r.Proto.Num != 112 && r.Proto.Num != 58)
 		}
 	}
 	if pct(rt, 15, "hasState") {
